@@ -240,6 +240,10 @@ class World:
         self.data = {}
         fp = scen.get("free_at_poll") if isinstance(scen, dict) else None
         self.free_at_poll = bool(fp) if fp is not None else os.environ.get("JMC_FREE_AT_POLL", "0") == "1"
+        # preemptions are only explored where one side is a named vproc (scenario option `preempt_focus`): the
+        # interleavings of the other processes with each other are left to the scenarios without the option
+        pf = scen.get("preempt_focus") if isinstance(scen, dict) else None
+        self.preempt_focus = frozenset(pf) if pf else None
 
     # ------------------------------------------------------------------ paths
     def rel(self, path):
@@ -336,6 +340,8 @@ class World:
             # (a process parked at a poll with running jobs is WAITING for them: leaving it is not a
             # preemption - how long jobs run relative to everybody else's progress is the environment's choice)
             p = 1
+            if self.preempt_focus is not None and v.name not in self.preempt_focus and self.last.name not in self.preempt_focus:
+                p = 1000  # outside every budget
         return (p, 1 if is_fault else 0)
 
     def fire(self, opt):
